@@ -780,6 +780,14 @@ class OptimizationProblem(EvaluationProblem):
                     attr_name = "_OptimizationProblem__is_linear"
                     val = val == "linear"
 
+                if attr_name == "ineq_tolerance":
+                    problem.tolerances.inequality = float(val)
+                    continue
+
+                if attr_name == "eq_tolerance":
+                    problem.tolerances.equality = float(val)
+                    continue
+
                 setattr(problem, attr_name, val)
 
             for name, functions in zip(
